@@ -180,6 +180,16 @@ func ruleNodeLayer(c *Ctx) {
 								}
 							}
 						}
+						// wipe(x): a library helper that assigns the zero value through the pointer it is given
+						if pes, ok := list[i-1].(*ast.ExprStmt); ok {
+							if pc, ok := pes.X.(*ast.CallExpr); ok {
+								if wi, isWipe := c.wipeHelper(m.calleeUnit(pc)); isWipe {
+									if a := argFor(pc, wi); a != nil && identVar(info, a) == xv {
+										cleared = true
+									}
+								}
+							}
+						}
 						// *x = T{}
 						if as, ok := list[i-1].(*ast.AssignStmt); ok && len(as.Lhs) == 1 {
 							if se, ok := ast.Unparen(as.Lhs[0]).(*ast.StarExpr); ok && identVar(info, se.X) == xv {
@@ -246,6 +256,55 @@ func ruleNodeLayer(c *Ctx) {
 						}
 					}
 					if newV != nil {
+						// the conversion may be done by a helper of the old node (n16 := n4.grow()): its body is
+						// then the block to look at, with its receiver/parameter in the role of the old node
+						// and the variable it returns in the role of the new one
+						lst, xo, nv, uu := list[:i], xv, newV, u
+						for _, earlier := range list[:i] {
+							as, ok := earlier.(*ast.AssignStmt)
+							if !ok || len(as.Lhs) != 1 || len(as.Rhs) != 1 || identVar(info, as.Lhs[0]) != newV {
+								continue
+							}
+							hc, ok := ast.Unparen(as.Rhs[0]).(*ast.CallExpr)
+							if !ok {
+								continue
+							}
+							cu := m.calleeUnit(hc)
+							if cu == nil || cu.Lit != nil || cu.Decl == nil || cu.Body == nil {
+								continue
+							}
+							rets, all := returnExprs(cu)
+							if !all || len(rets) == 0 {
+								continue
+							}
+							rv := identVar(info, rets[0])
+							same := rv != nil
+							for _, r := range rets {
+								if identVar(info, r) != rv {
+									same = false
+								}
+							}
+							if !same {
+								continue
+							}
+							// which variable of the helper is the old node?
+							var ov *types.Var
+							if sel, ok := ast.Unparen(hc.Fun).(*ast.SelectorExpr); ok && identVar(info, sel.X) == xv && cu.Decl.Recv != nil && len(cu.Decl.Recv.List) == 1 && len(cu.Decl.Recv.List[0].Names) == 1 {
+								ov, _ = info.Defs[cu.Decl.Recv.List[0].Names[0]].(*types.Var)
+							}
+							k := 0
+							for _, f := range cu.Decl.Type.Params.List {
+								for _, nm := range f.Names {
+									if k < len(hc.Args) && identVar(info, hc.Args[k]) == xv {
+										ov, _ = info.Defs[nm].(*types.Var)
+									}
+									k++
+								}
+							}
+							if ov != nil {
+								lst, xo, nv, uu = cu.Body.List, ov, rv, cu
+							}
+						}
 						// payload: every array field the two layouts have (children, and keys where both
 						// have them) must be written in this block from the old node's field
 						newSt, _ := namedOf(newV.Type()).Underlying().(*types.Struct)
@@ -273,7 +332,7 @@ func ruleNodeLayer(c *Ctx) {
 									}
 									// a local bound once to an expression that reads the field
 									if id, ok := z.(*ast.Ident); ok && depth < 4 && !found {
-										if d := m.resolveLocal(u, id); d != nil && readsD(d, v, field, depth+1) {
+										if d := m.resolveLocal(uu, id); d != nil && readsD(d, v, field, depth+1) {
 											found = true
 										}
 									}
@@ -283,24 +342,24 @@ func ruleNodeLayer(c *Ctx) {
 							}
 							reads := func(e ast.Node, v *types.Var, field string) bool { return readsD(e, v, field, 0) }
 							written := false
-							for _, earlier := range list[:i] {
+							for _, earlier := range lst {
 								ast.Inspect(earlier, func(z ast.Node) bool {
 									switch y := z.(type) {
 									case *ast.AssignStmt:
 										for li, l := range y.Lhs {
-											if reads(l, newV, fname) {
+											if reads(l, nv, fname) {
 												// the right-hand side (or the loop around it) must read the old node
 												src := ast.Node(earlier)
 												if len(y.Rhs) == len(y.Lhs) {
 													_ = li
 												}
-												if reads(src, xv, "children") || reads(src, xv, "keys") {
+												if reads(src, xo, "children") || reads(src, xo, "keys") {
 													written = true
 												}
 											}
 										}
 									case *ast.CallExpr:
-										if isBuiltinCall(info, y, "copy") && len(y.Args) == 2 && reads(y.Args[0], newV, fname) && (reads(y.Args[1], xv, "children") || reads(y.Args[1], xv, "keys")) {
+										if isBuiltinCall(info, y, "copy") && len(y.Args) == 2 && reads(y.Args[0], nv, fname) && (reads(y.Args[1], xo, "children") || reads(y.Args[1], xo, "keys")) {
 											written = true
 										}
 										// setAtPos(&new.keys, i, old.keys[i]): a library helper that writes through the
@@ -308,7 +367,7 @@ func ruleNodeLayer(c *Ctx) {
 										if f := m.staticCallee(y); f != nil && f.Pkg() == m.Pkg {
 											w := c.e.writesThrough(f)
 											for ai, a := range y.Args {
-												if w[ai] && reads(a, newV, fname) && (reads(earlier, xv, "children") || reads(earlier, xv, "keys")) {
+												if w[ai] && reads(a, nv, fname) && (reads(earlier, xo, "children") || reads(earlier, xo, "keys")) {
 													written = true
 												}
 											}
@@ -326,14 +385,14 @@ func ruleNodeLayer(c *Ctx) {
 							}
 						}
 						copied := map[string]bool{}
-						for _, earlier := range list[:i] {
+						for _, earlier := range lst {
 							as, ok := earlier.(*ast.AssignStmt)
 							if !ok || len(as.Lhs) != 1 || len(as.Rhs) != 1 {
 								continue
 							}
 							ls, ok1 := ast.Unparen(as.Lhs[0]).(*ast.SelectorExpr)
 							rs, ok2 := ast.Unparen(as.Rhs[0]).(*ast.SelectorExpr)
-							if !ok1 || !ok2 || identVar(info, ls.X) != newV || identVar(info, rs.X) != xv || ls.Sel.Name != rs.Sel.Name {
+							if !ok1 || !ok2 || identVar(info, ls.X) != nv || identVar(info, rs.X) != xo || ls.Sel.Name != rs.Sel.Name {
 								continue
 							}
 							if ls.Sel.Name == m.Header.Obj().Name() { // n16.node = n4.node
@@ -345,7 +404,7 @@ func ruleNodeLayer(c *Ctx) {
 						}
 						// a helper called in this block that copies header fields from one of its
 						// operands to another (dst.inheritHeader(src))
-						for _, earlier := range list[:i] {
+						for _, earlier := range lst {
 							es, ok := earlier.(*ast.ExprStmt)
 							if !ok {
 								continue
@@ -391,12 +450,12 @@ func ruleNodeLayer(c *Ctx) {
 								for k := range as.Lhs {
 									ls, ok1 := ast.Unparen(as.Lhs[k]).(*ast.SelectorExpr)
 									rs, ok2 := ast.Unparen(as.Rhs[k]).(*ast.SelectorExpr)
-									if ok1 && ok2 && ls.Sel.Name == rs.Sel.Name && rootArg(ls) == newV && rootArg(rs) == xv {
+									if ok1 && ok2 && ls.Sel.Name == rs.Sel.Name && rootArg(ls) == nv && rootArg(rs) == xo {
 										copied[ls.Sel.Name] = true
 									}
 									// *dst = *src on the header struct
 									if l, ok := ast.Unparen(as.Lhs[k]).(*ast.StarExpr); ok {
-										if r, ok := ast.Unparen(as.Rhs[k]).(*ast.StarExpr); ok && namedOf(info.TypeOf(l)) != nil && m.Header != nil && namedOf(info.TypeOf(l)).Obj() == m.Header.Obj() && rootArg(l) == newV && rootArg(r) == xv {
+										if r, ok := ast.Unparen(as.Rhs[k]).(*ast.StarExpr); ok && namedOf(info.TypeOf(l)) != nil && m.Header != nil && namedOf(info.TypeOf(l)).Obj() == m.Header.Obj() && rootArg(l) == nv && rootArg(r) == xo {
 											for _, f := range m.HeaderFld {
 												copied[f] = true
 											}
@@ -450,7 +509,7 @@ func ruleNodeLayer(c *Ctx) {
 			}
 			var visit func(list []ast.Stmt)
 			visit = func(list []ast.Stmt) {
-				hasGet, hasPut := false, false
+				hasGet, hasPut, hasRelink := false, false, false
 				var pos token.Pos
 				for _, st := range list {
 					switch x := st.(type) {
@@ -468,6 +527,15 @@ func ruleNodeLayer(c *Ctx) {
 									}
 								}
 							}
+							// n16 := n4.grow(): a helper that hands out a pooled node of another size class
+							if _, isCall := ast.Unparen(x.Rhs[0]).(*ast.CallExpr); isCall && isFreshExpr(m, x.Rhs[0]) && m.kindByStruct(info.TypeOf(x.Rhs[0])) != nil {
+								hasGet, pos = true, x.Pos()
+							}
+						}
+						for _, l := range x.Lhs {
+							if se, ok := ast.Unparen(l).(*ast.StarExpr); ok && c.isNodeRefType(info.TypeOf(se)) {
+								hasRelink = true
+							}
 						}
 					case *ast.ExprStmt:
 						if call, ok := x.X.(*ast.CallExpr); ok {
@@ -477,7 +545,7 @@ func ruleNodeLayer(c *Ctx) {
 						}
 					}
 				}
-				if hasGet {
+				if hasGet && hasRelink {
 					sites = append(sites, site{u.Name, pos, hasPut})
 				}
 			}
@@ -506,7 +574,32 @@ func ruleNodeLayer(c *Ctx) {
 		cu := m.ByName[k.Struct.Obj().Name()+".clear"]
 		key := k.Struct.Obj().Name() + ".clear resets every field"
 		if cu == nil {
-			c.r.undecided("R24", key, "-", "no clear method", "C12")
+			// no clear method: nodes of this class may be zeroed as a whole by a helper (wipe(n))
+			wiped := ""
+			for _, u := range c.sortedUnits() {
+				if u.Body == nil {
+					continue
+				}
+				ast.Inspect(u.Body, func(n ast.Node) bool {
+					call, ok := n.(*ast.CallExpr)
+					if !ok {
+						return true
+					}
+					if wi, isWipe := c.wipeHelper(m.calleeUnit(call)); isWipe {
+						if a := argFor(call, wi); a != nil {
+							if pt, ok := info.TypeOf(a).Underlying().(*types.Pointer); ok && namedOf(pt.Elem()) != nil && namedOf(pt.Elem()).Obj() == k.Struct.Obj() {
+								wiped = m.calleeUnit(call).Name
+							}
+						}
+					}
+					return true
+				})
+			}
+			if wiped != "" {
+				c.r.ok("R24", key, "-", "no clear method; nodes of this class are zeroed as a whole by "+wiped+" (*p = zero value)", "C12", "C16", "C11", "C01")
+			} else {
+				c.r.undecided("R24", key, "-", "no clear method", "C12")
+			}
 			continue
 		}
 		st := k.Struct.Underlying().(*types.Struct)
@@ -755,6 +848,10 @@ func ruleNodeLayer(c *Ctx) {
 			c.r.bad("R22", key, m.pos(t.pos), fmt.Sprintf("shrinks at %d children into a node with %d slots", t.shrink, t.lower.Cap), "C11", "C10", "C01")
 		case lowGrow >= 0 && t.shrink >= lowGrow:
 			c.r.bad("R22", key, m.pos(t.pos), fmt.Sprintf("shrinks at %d children but the smaller node grows at %d: no hysteresis, the next insert grows it back", t.shrink, lowGrow), "C11", "C10")
+		case thrs[t.lower.Value].shrink >= 0 && t.shrink <= thrs[t.lower.Value].shrink:
+			// the shrink tests are equalities (childrenLen == T): a node that enters the smaller class
+			// with T or fewer children steps past that class's own test and never meets it
+			c.r.bad("R22", key, m.pos(t.pos), fmt.Sprintf("shrinks at %d children into a class whose own shrink test is childrenLen == %d: the node enters the class at or below that count, the equality is never met afterwards, and the node is never shrunk or collapsed again – it stays linked with zero children and pins its ancestors (memory follows the history)", t.shrink, thrs[t.lower.Value].shrink), "C11", "C10", "C17")
 		default:
 			c.r.ok("R22", key, m.pos(t.pos), fmt.Sprintf("threshold %d ≤ capacity %d and below its grow threshold", t.shrink, t.lower.Cap), "C11", "C10", "C01")
 		}
@@ -1285,4 +1382,48 @@ func (c *Ctx) detachedAtCallSites(u *FuncUnit, xv *types.Var) string {
 		}
 	}
 	return fmt.Sprintf("%s receives the subtree by value: at each of its %d call sites the argument is a copy of a slot that is overwritten before the call (the subtree is detached first)", u.Name, len(sites))
+}
+
+// wipeHelper: u assigns the zero value of the pointee through one of its pointer parameters
+// (`*p = T{}`, or `var zero T; *p = zero`) and does nothing else with it. Returns the index of
+// that parameter (-2 for the receiver).
+func (c *Ctx) wipeHelper(u *FuncUnit) (int, bool) {
+	if u == nil || u.Lit != nil || u.Decl == nil || u.Body == nil || len(u.Body.List) > 3 {
+		return 0, false
+	}
+	info := c.m.Info
+	idx, found := 0, false
+	ast.Inspect(u.Body, func(n ast.Node) bool {
+		as, ok := n.(*ast.AssignStmt)
+		if !ok || len(as.Lhs) != 1 || len(as.Rhs) != 1 || as.Tok != token.ASSIGN {
+			return true
+		}
+		se, ok := ast.Unparen(as.Lhs[0]).(*ast.StarExpr)
+		if !ok {
+			return true
+		}
+		id, ok := ast.Unparen(se.X).(*ast.Ident)
+		if !ok {
+			return true
+		}
+		pi := c.m.paramIndex(u, id)
+		if pi == -1 {
+			return true
+		}
+		zero := false
+		if cl, ok := ast.Unparen(as.Rhs[0]).(*ast.CompositeLit); ok && len(cl.Elts) == 0 {
+			zero = true
+		}
+		if zv := identVar(info, as.Rhs[0]); zv != nil && !zv.IsField() {
+			// var zero T (no initialiser, never assigned)
+			if len(assignedExprs(info, u.Body, zv)) == 0 && !assignedAnywhere(info, u.Body, zv) && zv.Pos() > u.Body.Pos() {
+				zero = true
+			}
+		}
+		if zero {
+			idx, found = pi, true
+		}
+		return true
+	})
+	return idx, found
 }
